@@ -921,6 +921,35 @@ def answer (stream : String) (f : Array String) : Ans :=
       | .diverge _ => "HANG"
       | _ => "ERR"
     { m := m, s := s, guard := "1" }
+  | "fcap" =>
+    -- C11: a function whose body is the generated block `text`, called inside a double-quoted substitution: `argv "$(f)"`.
+    -- Every `stage N st p` of the body prints its id; the captured text must be the ids of exactly the commands the structured
+    -- semantics runs, in order, one per line (both ends trimmed as the model of the splice does).
+    let es := envIn (g 0)
+    let text := unhex (g 1)
+    let args := if g 2 = "[]" then [] else ((g 2).splitOn ",").map unhex
+    let seq := seqIn (g 3)
+    let sem := scriptSem es.env seq [] (args.drop 1)
+    let fuel := 4000
+    let idsOf (tr : List (Str × Int × List Str)) : List Str :=
+      tr.filterMap (fun (l, _, _) => match splitOnChar ' ' l with
+        | w :: i :: _ => if w = "stage".toList then some i else none
+        | _ => none)
+    -- reference: the function's standard output (one id per line, final newline removed)
+    let capOf (tr : List (Str × Int × List Str)) : String := hex (joinWith ['\n'] (idsOf tr))
+    -- model of `core::try_run_func` under capture: the stdout of every command it ran, each trimmed, joined by single blanks
+    let capModel (tr : List (Str × Int × List Str)) : String := hex (joinWith [' '] (idsOf tr))
+    let m : String := match runLines sem (args.drop 1) fuel text {} with
+      | .ok (some r) => traceOut3 r.st.trace ++ "#" ++ capModel r.st.trace
+      | .ok none => "SYNTAX-ERROR"
+      | .diverge _ => "HANG"
+      | _ => "ERR"
+    let (ast, _) := pBlockW (((g 5).splitOn " ").filter (· ≠ ""))
+    let (sp, many) : String × Bool := match C14.semBlock sem fuel ast false {} with
+      | .ok (st, _) => (traceOut3 st.trace ++ "#" ++ capOf st.trace, (idsOf st.trace).length ≥ 2)
+      | .diverge _ => ("HANG", false)
+      | _ => ("ERR", false)
+    { m := m, s := sp, guard := if many then "0" else "1", cls := if many then "function-output-joined" else "-" }
   | "envseq" =>
     let init : EnvCd.St := { exported := pairsIn (g 0), cwd := unhex (g 3) }
     let names := if g 1 = "[]" then [] else (g 1).splitOn "," |>.map unhex
